@@ -4,10 +4,10 @@ From Verif Require Import Base.Prelude Base.Bytes Model.Stream Proofs.StreamProo
 Local Open Scope N_scope.
 
 (* In a session (any list of deliveries, acknowledgements in any order and with any repetition, saves,
-   scrapes and stream ends after an open), for every assigned vBucket the tracked sequence number is the
-   maximum of the resume position and of everything settled so far. *)
+   scrapes and stream ends while the stream is open), for every assigned vBucket the tracked sequence number
+   is the maximum of the resume position and of everything settled so far. *)
 Theorem C04_max : forall ops s vb cur,
-  forallb session_op ops = true -> in_range (s_range s) vb = true -> s_offs s vb = Some cur ->
+  forallb session_op ops = true -> s_obs_nil s = false -> in_range (s_range s) vb = true -> s_offs s vb = Some cur ->
   exists x, s_offs (fst (run s ops)) vb = Some x /\ o_seq x = N.max (o_seq cur) (max_seq vb (log_run s ops)).
 Proof. exact session_max. Qed.
 Print Assumptions C04_max.
@@ -65,10 +65,23 @@ Example C04_example :
   option_map o_seq (s_offs s 0) = Some 3.
 Proof. vm_compute. reflexivity. Qed.
 
-(* known deviation (known_findings.json, closed-window-ack): while the stream is closed for a rebalance
-   the offsets map is empty, so a late acknowledgement of an older event is accepted: the reported
-   position moves backwards.  Witness on the model (replayed on the real code by the harness): *)
-Example C04_closed_window_refuted :
+(* While the stream is closed -- between the close and the reopen of a rebalance, after the shutdown -- an
+   acknowledgement changes nothing and reports nothing: there is no position it could move backwards (repaired
+   defect K8: the regression guard used to have nothing to compare with in that window). *)
+Theorem C04_closed_window_frozen : forall s i,
+  s_obs_nil s = true ->
+  let s' := fst (step s (Ack i)) in
+  (forall x, In x (snd (step s (Ack i))) -> match x with Track _ _ => False | _ => True end) /\
+  s_offs s' = s_offs s /\ s_dirty s' = s_dirty s /\ s_store s' = s_store s.
+Proof.
+  intros s i N. unfold step. destruct (s_failed s); [cbn; split; [intros x [<-|[]]; exact I|auto]|].
+  destruct (nth_error (s_ctxs s) i) as [[vb o]|]; [|cbn; split; [intros x [<-|[]]; exact I|auto]].
+  rewrite (set_offset_closed s vb o true N). cbn. split; [intros x []|auto].
+Qed.
+Print Assumptions C04_closed_window_frozen.
+
+(* the former witness of K8: the late acknowledgement of the older event is now ignored *)
+Example C04_closed_window_witness :
   let sv := Srv [(0, 20)] [(0, 77)] [] in
   let it n := MkI n 1700000000000000000 0 [100] n in
   snd (run (init_state (Cfg false false None []) fempty)
@@ -79,5 +92,5 @@ Example C04_closed_window_refuted :
    [Consume 0 KMut (it 2) (MkO 77 2 1 5 18446744073709551615) default_collection 1700000000];
    [Track 0 (MkO 77 2 1 5 18446744073709551615)];
    [Callback BeforeRebalanceStart; Callback BeforeStreamStop; CloseReq 0; Callback AfterStreamStop; Callback AfterRebalanceStart];
-   [Track 0 (MkO 77 1 1 5 18446744073709551615)]].
+   []].
 Proof. vm_compute. reflexivity. Qed.
